@@ -784,7 +784,7 @@ def run(rep, ctx):
     rep.rule("R17.8", "the geometry helpers classify rests on (get_dimensionality, get_radii, get_distances, displacement-tensor wrapper, clustering) satisfy their own rules (shared with C09/C10/C19)")
     with rep.guard("R17.8"):
         from . import shared as _sh
-        _sh.dimensionality(rep, ctx.model, "R17.8")
+        _sh.dimensionality(rep, ctx.model, "R17.8", caller_wraps=True)
         _sh.radii(rep, ctx.model, "R17.8")
         _sh.distances(rep, ctx.model, "R17.8")
     rep.floor("R17.7", 7)
